@@ -20,6 +20,7 @@ import (
 	"os"
 	"path/filepath"
 	"regexp"
+	"runtime"
 	"sort"
 	"strings"
 	"sync"
@@ -37,6 +38,7 @@ type vCCase struct {
 
 type vCLine struct {
 	Ev       string   `json:"ev"`
+	Prop     string   `json:"prop"` // the property the run serves (C20, C17: races and deadlocks; C04: deadlocks in healthy activity)
 	Case     int      `json:"case"`
 	A        string   `json:"a"`
 	B        string   `json:"b"`
@@ -46,6 +48,7 @@ type vCLine struct {
 	Pairs    []string `json:"pairs"`   // "funcX~funcY" (sorted), innermost library frames of the two accesses
 	Harness  int      `json:"harness"` // reports whose two accesses are both in harness code (not judged)
 	Pan      string   `json:"pan"`
+	Stuck    []string `json:"stuck"`    // library functions in which goroutines waited for a mutex at two looks 8 s apart
 	Detector bool     `json:"detector"` // the binary was built with the race detector and its log is readable
 	Expect   bool     `json:"expect"`
 }
@@ -83,7 +86,7 @@ func vConcConf(name string, tr *vSimTransport, d Delegate, ring *Keyring) *Confi
 	return c
 }
 
-func vConcCluster(t *testing.T, id int) *vCCluster {
+func vConcCluster(id int) (*vCCluster, error) {
 	c := &vCCluster{nw: vNewNet(int64(id)), mdN: &vMetaDelegate{}, mdQ: &vMetaDelegate{}, stop: make(chan struct{})}
 	c.mdN.set([]byte("n-0"))
 	c.mdQ.set([]byte("q-0"))
@@ -91,12 +94,12 @@ func vConcCluster(t *testing.T, id int) *vCCluster {
 	mk := func(name string, ip net.IP, d Delegate) (*Memberlist, *vSimTransport, *Keyring) {
 		ring, err := NewKeyring([][]byte{vCKeys[0], vCKeys[1]}, vCKeys[0])
 		if err != nil {
-			t.Fatal(err)
+			panic(err)
 		}
 		tr := c.nw.attach(name, ip, 7946)
 		m, err := Create(vConcConf(name, tr, d, ring))
 		if err != nil {
-			t.Fatal(err)
+			panic(err)
 		}
 		return m, tr, ring
 	}
@@ -112,12 +115,32 @@ func vConcCluster(t *testing.T, id int) *vCCluster {
 			time.Sleep(20 * time.Millisecond)
 		}
 		if err != nil {
-			t.Fatalf("conc: join: %v", err)
+			return nil, fmt.Errorf("conc: join: %v", err)
 		}
 	}
-	return c
+	return c, nil
 }
 
+var vReGoroutine = regexp.MustCompile(`(?m)^goroutine (\d+) \[(sync\.(?:RW)?Mutex\.(?:R)?Lock)[^\]]*\]:\n((?:.+\n)+)`)
+
+// vConcMutexWaiters: goroutine id -> innermost library function, for every goroutine waiting for a mutex
+func vConcMutexWaiters() map[string]string {
+	buf := make([]byte, 8<<20)
+	buf = buf[:runtime.Stack(buf, true)]
+	out := map[string]string{}
+	for _, g := range vReGoroutine.FindAllStringSubmatch(string(buf), -1) {
+		for _, f := range regexp.MustCompile(`(?m)^(\S+)\(.*\)\n\t(\S+):\d+`).FindAllStringSubmatch(g[3], -1) {
+			fn, file := f[1], filepath.Base(f[2])
+			if strings.Contains(fn, "hashicorp/memberlist.") && !strings.HasPrefix(file, "zz_verif_") {
+				out[g[1]] = fn[strings.LastIndex(fn, "memberlist.")+len("memberlist."):]
+				break
+			}
+		}
+	}
+	return out
+}
+
+// close stops the two loops and the cluster
 func (c *vCCluster) close() {
 	close(c.stop)
 	c.wg.Wait()
@@ -128,6 +151,57 @@ func (c *vCCluster) close() {
 		}()
 	}
 	time.Sleep(30 * time.Millisecond)
+}
+
+// goroutines left waiting by abandoned cases
+var vConcAbandoned = map[string]bool{}
+
+// vConcWatch runs body and looks at the process every 2 s: goroutines that wait for a mutex inside the library at
+// looks at least 8 s apart (critical sections last microseconds) are a deadlock.  The case is then abandoned as it is.
+func vConcWatch(body func()) (stuck []string) {
+	done := make(chan struct{})
+	go func() { defer close(done); body() }()
+	var first map[string]string
+	var firstAt time.Time
+	for {
+		select {
+		case <-done:
+			return nil
+		case <-time.After(2 * time.Second):
+		}
+		cur := vConcMutexWaiters()
+		for g := range cur {
+			if vConcAbandoned[g] {
+				delete(cur, g)
+			}
+		}
+		if first != nil {
+			for g, fn := range first {
+				if cur[g] != fn {
+					delete(first, g)
+				}
+			}
+		}
+		if len(first) == 0 {
+			first, firstAt = cur, time.Now()
+			continue
+		}
+		if time.Since(firstAt) >= 8*time.Second {
+			seen := map[string]bool{}
+			for g, fn := range first {
+				vConcAbandoned[g] = true
+				if !seen[fn] {
+					seen[fn] = true
+					stuck = append(stuck, fn)
+				}
+			}
+			for g := range cur {
+				vConcAbandoned[g] = true
+			}
+			sort.Strings(stuck)
+			return stuck
+		}
+	}
 }
 
 var vConcSinkBytes int
@@ -369,12 +443,18 @@ func TestVerifConc(t *testing.T) {
 		if err := json.Unmarshal(sc.Bytes(), &cs); err != nil {
 			t.Fatal(err)
 		}
-		l := vCLine{Ev: "Conc", Case: id, A: cs.A, B: cs.B, Pairs: []string{}, Detector: vRaceEnabled && racelog != "", Expect: cs.ExpectRace}
-		func() {
-			c := vConcCluster(t, id)
+		l := vCLine{Ev: "Conc", Prop: os.Getenv("VERIF_CONC_PROP"), Case: id, A: cs.A, B: cs.B, Pairs: []string{}, Detector: vRaceEnabled && racelog != "", Expect: cs.ExpectRace}
+		var setupErr error
+		l.Stuck = vConcWatch(func() {
+			c, err := vConcCluster(id)
+			if err != nil {
+				setupErr = err
+				return
+			}
 			fa, fb := c.op(cs.A), c.op(cs.B)
 			if fa == nil || fb == nil {
-				t.Fatalf("conc: unknown operation in %s / %s", cs.A, cs.B)
+				setupErr = fmt.Errorf("conc: unknown operation in %s / %s", cs.A, cs.B)
+				return
 			}
 			var ia, ib atomic.Int64
 			var pan atomic.Value
@@ -404,7 +484,13 @@ func TestVerifConc(t *testing.T) {
 			if p, ok := pan.Load().(string); ok {
 				l.Pan = p
 			}
-		}()
+		})
+		if l.Stuck == nil {
+			l.Stuck = []string{}
+			if setupErr != nil {
+				t.Fatal(setupErr)
+			}
+		}
 		if racelog != "" {
 			l.Pairs, l.Harness = vConcParse(vConcLogRead(racelog, &off))
 			if l.Pairs == nil {
